@@ -431,8 +431,6 @@ class Arrow(Type):
         type_out = self.type_out.without_unit_arguments()
         if self.type_in == UNIT:
             return type_out
-        elif isinstance(self.type_in, Arrow) and self.type_in.type_out == UNIT:
-            return Arrow(self.type_in.type_in, type_out)
         return Arrow(self.type_in, type_out)
 
     def is_polymorphic(self) -> bool:
